@@ -3299,6 +3299,7 @@ class ISLaSolver:
                     self.logger.debug(
                         "Dropping state %s, unsatisfiable SMT formulas", new_state
                     )
+                    continue
 
                 # Remove states with unsatisfiable existential formulas.
                 existential_formulas = [
